@@ -14,9 +14,9 @@ import z3
 import e2
 import miniregex
 from common import Report, build_native, seed
-from mir_exec import (Agg, MapBuf, Opaque, SBool, SInt, Slice, Str, StringBuf, Unsupported, VecBuf, field_of, find_method,
+from mir_exec import (Agg, MapBuf, Opaque, SBool, SInt, Slice, Str, StringBuf, SymOpt, Unsupported, VecBuf, field_of, find_method,
                       load_program, mk_int, mk_struct, new_ref)
-from mir_models import (Models, SeqIt, as_items, as_str, char_eq, deref, none, ok, sbool, some, z_and, z_not, z_or, utf8_bytes)
+from mir_models import (Models, SeqIt, as_items, as_str, char_eq, deref, none, ok, sbool, some, to_symopt, z_and, z_not, z_or, utf8_bytes)
 from props.c08 import GrammarModels, get_maker
 from props.c11 import other_ranges
 
@@ -334,6 +334,147 @@ def h_generated_multi(mode, cram):
     return h
 
 
+STREAMS = (None, "Stdout", "Stderr", "Combined")
+
+
+def h_update_exit_code(mode, cram, max_lines):
+    """`update` / `create` of a test case that ended with another exit code than written: the block is written from the recorded output and the
+    exit code.  stdout lines are [ab]x, stderr lines [ab]y (so that no line of one stream matches an expectation made from the other)."""
+    from mir_exec import find_method as fm
+
+    def mk(n_out, n_err, nl, stream):
+        def setup(ctx):
+            def lines_of(n, mark, tag):
+                out = []
+                for j in range(n):
+                    ch = ctx.sym_char("%s%d" % (tag, j), 1)
+                    ctx.add(z3.Or(ch.z() == ord("a"), ch.z() == ord("b")))
+                    content = [ch, SInt(ord(mark), "char")]
+                    body = []
+                    for c_ in content:
+                        body += utf8_bytes(ctx, c_)
+                    eol = nl or j < n - 1
+                    out.append({"content": content, "bytes": body + ([SInt(10, "u8")] if eol else []), "eol": eol})
+                return out
+            actual = ctx.sym_int("actual", "i32")
+            ctx.add(z3.And(actual.z() >= 0, actual.z() <= 255))        # the exit codes a process can end with
+            exp_set = ctx.sym_bool("expected_set")
+            expected = ctx.sym_int("expected", "i32")
+            ctx.add(z3.And(expected.z() >= 0, expected.z() <= 255))
+            ctx.add(z3.If(exp_set.z(), expected.z(), 0) != actual.z())  # the test case failed on its exit code
+            ctx.notes.update(out=lines_of(n_out, "x", "o"), err=lines_of(n_err, "y", "e"), stream=stream, actual=actual, expected=expected, exp_set=exp_set)
+            return [Agg("Escaper", mode, []), SBool(cram)]
+        return setup
+
+    def drive_exit(ctx, args):
+        """generate_testcase(outcome failed with InvalidExitCode) → LineParser → exit code and every parsed expectation's real matches()"""
+        prog = ctx.program
+        escaper, cram_ = args
+        n = ctx.notes
+        fail = lambda why: Agg("tuple", None, [SBool(False), Str([SInt(ord(c), "char") for c in why])])
+        cfg = mk_struct("TestCaseConfig", detached=none(), environment=MapBuf([]), keep_crlf=some(SBool(bool(cram_.v))),
+                        output_stream=some(Agg("OutputStreamControl", n["stream"], [])) if n["stream"] else none(),
+                        skip_document_code=none(), strip_ansi_escaping=none(), timeout=none(), wait=none())
+        tc = mk_struct("TestCase", title=StringBuf([]), shell_expression=StringBuf([SInt(ord(c), "char") for c in "cmd"]), expectations=VecBuf([]),
+                       exit_code=SymOpt(n["exp_set"], n["expected"]), line_number=mk_int(1, "usize"), config=cfg)
+        so = [b for ln in n["out"] for b in ln["bytes"]]
+        se = [b for ln in n["err"] for b in ln["bytes"]]
+        out = mk_struct("Output", stderr=Agg("OutputStream", None, [VecBuf(se, "u8")]), stdout=Agg("OutputStream", None, [VecBuf(so, "u8")]),
+                        exit_code=Agg("ExitStatus", "Code", [n["actual"]]))
+        expected_eff = mk_int(z3.If(n["exp_set"].z(), n["expected"].z(), z3.BitVecVal(0, 32)), "i32")
+        outcome = mk_struct("Outcome", location=none(), output=out, testcase=tc, format=Opaque("format"), escaping=escaper,
+                            result=Agg("Result", "Err", [Agg("TestCaseError", "InvalidExitCode", [n["actual"], expected_eff])]))
+        g = ctx.call(fm(prog, "generators/outcome.rs", "generate_testcase"), [new_ref(outcome)])
+        if g.variant != "Ok":
+            return fail("generator refused")
+        text = list(as_str(g.fields[0]).chars)
+        ctx.notes["generated"] = text
+        glines, cur = [], []
+        for ch in text:
+            if ctx.decide(char_eq(ch, SInt(10, "char"))):
+                glines.append(cur)
+                cur = []
+            else:
+                cur.append(ch)
+        if cur:
+            glines.append(cur)
+        maker = get_maker(ctx)
+        lp = ctx.call(prog.resolve_call("LineParser::new"), [maker, SBool(bool(cram_.v))])
+        cell = new_ref(lp, True)
+        add = prog.resolve_call("LineParser::add_testcase_body")
+        for i, ln in enumerate(glines):
+            r = ctx.call(add, [cell, Str(ln), mk_int(i, "usize")])
+            if r.variant != "Ok":
+                return fail("generated test does not parse")
+        r = ctx.call(prog.resolve_call("LineParser::end_testcase"), [cell, mk_int(len(glines), "usize")])
+        if r.variant != "Ok":
+            return fail("generated test does not parse")
+        tests = as_items(field_of(cell.loc.get(), "testcases"))
+        if len(tests) != 1:
+            return fail("%d test cases instead of 1" % len(tests))
+        t = tests[0]
+        se_ = as_str(field_of(t, "shell_expression")).chars
+        if len(se_) != 3 or not all(c.concrete and c.v == ord(x) for c, x in zip(se_, "cmd")):
+            return fail("shell expression changed")
+        code = to_symopt(field_of(t, "exit_code"))
+        conds = []
+        if code.fields[0] is None:
+            conds.append(z_and([z_not(code.present.v), char_eq(n["actual"], mk_int(0, "i32"))]))
+        else:
+            conds.append(z_or([z_and([code.present.v, char_eq(code.fields[0], n["actual"])]),
+                               z_and([z_not(code.present.v), char_eq(n["actual"], mk_int(0, "i32"))])]))
+        # the stream `validate` compares: stderr iff so configured
+        lines = n["err"] if n["stream"] == "Stderr" else n["out"]
+        exps = as_items(field_of(t, "expectations"))
+        if len(exps) != len(lines):
+            return fail("%d expectations for the %d line(s) of the validated stream" % (len(exps), len(lines)))
+        for e, ln in zip(exps, lines):
+            if e.fields[0].v or e.fields[1].v:
+                return fail("expectation carries a quantifier")
+            m = rule_matches(ctx, e.fields[2], Slice(list(ln["bytes"]), "u8"))
+            conds.append(m.v if m.concrete else m.z())
+        return Agg("tuple", None, [sbool(z_and(conds)), Str([SInt(ord(c), "char") for c in "exit code or an expectation does not fit the recorded run"])])
+
+    def post2(ctx, args, kind, value):
+        if kind != "return":
+            return False
+        good = value.fields[0]
+        return good.v if good.concrete else good.z()
+    inputs = []
+    for stream in STREAMS:
+        for n_out in range(0, max_lines + 1):
+            for n_err in range(0, max_lines + 1):
+                if stream == "Combined" and n_err:
+                    continue               # merged by the runner: the error stream is empty
+                for nl in (True, False):
+                    inputs.append(("output_stream=%s stdout=%d line(s) stderr=%d line(s) final-newline=%s" % (stream, n_out, n_err, nl), mk(n_out, n_err, nl, stream)))
+    h = e2.Harness("rewritten_test_passes_after_exit_code_%s_%s" % ("cram" if cram else "markdown", mode.lower()), drive_exit, inputs, post2, native=None, judge=None,
+                   describe="a test case that failed on its exit code is rewritten to a block that parses back to the same command, the recorded exit code, and one "
+                            "quantifier-free expectation per line of the stream that is validated (stderr iff output_stream is stderr), each matching its line",
+                   bound="exit codes 0..255 recorded × written (absent or 0..255, different); stdout 0..%d lines [ab]x, stderr 0..%d lines [ab]y, with/without final "
+                         "newline; output_stream ∈ {unset, stdout, stderr, combined}; %s escaping; %s line-parser mode" % (max_lines, max_lines, mode, "Cram" if cram else "Markdown"))
+    h.models_cls = GenModels
+    return h
+
+
+def replay_update_exit_code(rep, h, res, mode, cram):
+    for model, r in res.raw_witnesses[:6]:
+        n = r.ctx.notes
+        text = lambda lines: "".join("".join(chr(e2.model_int(model, c)) for c in ln["content"]) + ("\n" if ln["eol"] else "") for ln in lines).encode()
+        w = {"stdout": list(text(n["out"])), "stderr": list(text(n["err"])), "exit": e2.model_int(model, n["actual"]),
+             "expected": e2.model_int(model, n["expected"]) if z3.is_true(model.eval(n["exp_set"].z(), model_completion=True)) else None,
+             "stream": n["stream"].lower() if n["stream"] else None, "escaper": mode.lower(), "cram": cram, "existing": []}
+        nk, nv = NAT.call("update_exit_code", [w])
+        if nk != "return" or nv.get("passes") is not True:
+            rep.violation("updated-test-fails:%s:exit-code:%s" % ("cram" if cram else "markdown", n["stream"] or "unset"),
+                          "the %s test written by `update` (%s escaping) for a test case that ended with exit code %s (written: %s), stdout %r, stderr %r and "
+                          "output_stream %s does not pass against that very run: %s"
+                          % ("cram" if cram else "markdown", mode, w["exit"], w["expected"], bytes(w["stdout"]), bytes(w["stderr"]), w["stream"], nv),
+                          {"kind": "eval", "fn": "update_exit_code", "args": [w], "native": [nk, nv], "harness": h.name})
+        else:
+            rep.mismatches.append("%s: solver witness %s did not reproduce natively: %s" % (h.name, w, nv))
+
+
 def h_backticks(max_bytes):
     def post(ctx, args, kind, value):
         if kind != "return" or not value.concrete:
@@ -407,6 +548,13 @@ def run(pid, tier):
                 else:
                     rep.mismatches.append("%s: solver witness %r / %r did not reproduce natively: %s" % (hm.name, out, existing, nv))
             e2.record(rep, hm, resm)
+    # a test case that failed on its exit code: rewritten from the recorded output of the validated stream
+    for cram in (False, True):
+        for mode in ("Unicode", "Ascii") if not q else ("Unicode",):
+            hx = h_update_exit_code(mode, cram, 1 if q else 2)
+            resx = e2.run_with_raw(prog, hx, max_witnesses=6)
+            replay_update_exit_code(rep, hx, resx, mode, cram)
+            e2.record(rep, hx, resx)
     NAT.close()
     tot_paths = sum(s.get("paths", 0) for s in rep.subclaims)
     rep.coverage.update({
